@@ -6,6 +6,7 @@ import (
 	"hash/fnv"
 	"io"
 	"log"
+	mrand "math/rand"
 	"os"
 	"sort"
 	"strings"
@@ -14,6 +15,7 @@ import (
 	"testing/synctest"
 	"time"
 
+	"github.com/google/uuid"
 	"github.com/nats-io/nats.go"
 )
 
@@ -69,6 +71,7 @@ type Sim struct {
 	LogBuf   *bytes.Buffer
 	start    time.Time
 	DelayPM  int // per-mille chance per step of a pure delay although work is enabled
+	DelayMax int // longest pure delay in milliseconds (default 3000)
 	schedH   uint64
 	stateH   uint64
 
@@ -111,6 +114,10 @@ func NewSim(t *testing.T, prop string, seed uint64, wl, sch *Tape) *Sim {
 	s.LogBuf = &bytes.Buffer{}
 	log.SetOutput(&lockedWriter{w: s.LogBuf})
 	log.SetFlags(0)
+	// randomness the code under test draws by itself is seeded from the run seed: uuids and the jitter of the
+	// reconnect back-off (math/rand top-level functions)
+	uuid.SetRand(&seedReader{state: mix(seed, 77)})
+	mrand.Seed(int64(mix(seed, 78) >> 1))
 	s.start = time.Now()
 	s.schedH = 1469598103934665603
 	s.stateH = 1469598103934665603
@@ -343,7 +350,11 @@ func (s *Sim) StepOnce(random bool) bool {
 		v := s.SCH.Draw(1000)
 		if s.DelayPM > 0 && v >= 1000-s.DelayPM {
 			// pure delay although work is pending (slow network / stalled node)
-			d := time.Duration(1+s.SCH.Draw(3000)) * time.Millisecond
+			mx := s.DelayMax
+			if mx <= 0 {
+				mx = 3000
+			}
+			d := time.Duration(1+s.SCH.Draw(3000)%mx) * time.Millisecond
 			s.Step++
 			s.Fault("delay")
 			s.Logf("delay %s", d)
@@ -492,4 +503,16 @@ func fenceOpen(name string) bool {
 		}
 	}
 	return true
+}
+
+type seedReader struct{ state uint64 }
+
+func (r *seedReader) Read(p []byte) (int, error) {
+	for i := range p {
+		if i%8 == 0 {
+			splitmix(&r.state)
+		}
+		p[i] = byte(r.state >> (8 * uint(i%8)))
+	}
+	return len(p), nil
 }
